@@ -32,6 +32,7 @@ import gen_comp
 import c07
 import c08
 import c11lib
+import c11_grow
 
 import autofit as af
 from autoconf import conf
@@ -1449,6 +1450,8 @@ def run(ctx):
         c = json.loads(f.read_text())
         if "search" in c:
             search_roundtrip(ctx, c["search"])
+        elif "fit_directory" in c:
+            c11_grow.replay_growth(ctx, c)
         else:
             one_case(ctx, c["program"], cfg, label=f.name)
     ctx.notes["t_corpus_s"] = round(time.time() - t0, 1)
@@ -1468,6 +1471,7 @@ def run(ctx):
     for _ in range(ctx.n(33, 330)):
         search_roundtrip(ctx)
     ctx.notes["t_search_json_s"] = round(time.time() - t0, 1)
+    c11_grow.run_growth(ctx)  # constructor chains of the search classes; files of a fit directory -> database columns
 
 
 def replay(ctx, payload):
@@ -1475,5 +1479,7 @@ def replay(ctx, payload):
     cfg = probe_cfg(ctx)
     if "search" in case:
         search_roundtrip(ctx, case["search"])
+    elif "program" not in case:
+        c11_grow.replay_growth(ctx, case)
     else:
         one_case(ctx, case["program"], cfg, label="replay")
